@@ -154,6 +154,16 @@ func runR19_2(c *Ctx, r *R) {
 				if ic, ok := cd.V.(*ssa.Call); ok && isFieldCall(ic, "closed_", "IsSet") && !cd.Truth && la.protectedAt(f, ic) {
 					good = true
 				}
+				// the re-check made by a helper called under the lock (lookup := func() (conn, done, st)): the
+				// result tested here has this value only on exits of the helper behind closed_.IsSet()==false
+				if hc, idx := resultOfCall(cd.V); hc != nil && la.protectedAt(f, hc) {
+					if h := hc.Call.StaticCallee(); h != nil && h.Blocks != nil && helperExcludes(h, idx, cd.Truth, func(hcd Cond) bool {
+						ic, ok := hcd.V.(*ssa.Call)
+						return ok && isFieldCall(ic, "closed_", "IsSet") && !hcd.Truth
+					}) {
+						good = true
+					}
+				}
 			}
 			if good {
 				r.OK(key, call.Pos(), "dial started only after closed_ was re-checked under client.mu")
